@@ -48,6 +48,7 @@ class C01(Prop):
                 "f": "mean",
                 "level": rng.choice(["1/2", "1/2", "1/4", "4/5", "1/8"]),  # documented: neglected for the mean
                 "inc": rng.random() < 0.5,
+                "inc_kind": rng.choice([None, None, "np_bool", "int"]),
                 "y": ic.gen_y(rng, n),
                 "w": ic.gen_w(rng, n),
             }
